@@ -352,6 +352,27 @@ func runSequence(t *testing.T, r *vp.Recorder, seq []op) {
 				}()
 				synctest.Wait()
 				m.step(i, o)
+				// a receiver with a topic also answers what its topic is called,
+				// at any time, also while calls wait and after Close: a read-only
+				// call that returns and leaves everything as it was
+				if resendTopic {
+					tnDone := false
+					go func() {
+						defer func() { recover() }()
+						_ = rc.TopicName()
+						mu.Lock()
+						tnDone = true
+						mu.Unlock()
+					}()
+					synctest.Wait()
+					mu.Lock()
+					ok := tnDone
+					mu.Unlock()
+					if !ok {
+						mismatch = append(mismatch, fmt.Sprintf("after %s: TopicName is blocked", seqName(seq[:i+1])))
+						break
+					}
+				}
 				// compare every call issued so far
 				mu.Lock()
 				for j := 0; j <= i; j++ {
@@ -770,7 +791,7 @@ func pubsubScenario(extra []string) *sched.Scenario {
 
 func TestCheck(t *testing.T) {
 	r := vp.New("C16", "model_checking",
-		"(H) every sequence of <= N operations over {Close, Direct(c1), Direct(c2), Direct(c1) from a denied peer, Next, UncacheCid(c1)}, each operation started in its own goroutine in a synctest bubble and observed at quiescence as returned(value) / blocked, compared after every step with a reference model of the receiver (closed flag, one-slot queue, duplicate set, blocked callers), and the same one operation shallower with an allow filter that itself calls the receiver (UncacheCid of an unrelated CID) before answering, and the same at full depth with receivers that have a pubsub topic and republish every direct announcement (WithResend(true)), and once more with address filtering on (WithFilterIPs(true)) and direct announcements carrying only loopback and private addresses; after every sequence that leaves the receiver open with nobody waiting, what is queued is taken out and a direct announcement of a fresh CID must go through (Direct returns, Next delivers it); (S) every set of 2 threads x 1-2 operations and 3 threads x 1 operation containing at least one Close (3 threads x <=2 operations in the thorough tier), all interleavings at the scheduling points of the instrumented announce package up to the preemption bound. states = distinct decision states / sequences; transitions = scheduling steps / operations; traces = executions of the real receiver.",
+		"(H) every sequence of <= N operations over {Close, Direct(c1), Direct(c2), Direct(c1) from a denied peer, Next, UncacheCid(c1)}, each operation started in its own goroutine in a synctest bubble and observed at quiescence as returned(value) / blocked, compared after every step with a reference model of the receiver (closed flag, one-slot queue, duplicate set, blocked callers), and the same one operation shallower with an allow filter that itself calls the receiver (UncacheCid of an unrelated CID) before answering, and the same at full depth with receivers that have a pubsub topic and republish every direct announcement (WithResend(true)), asked for their topic's name (TopicName) after every operation, and once more with address filtering on (WithFilterIPs(true)) and direct announcements carrying only loopback and private addresses; after every sequence that leaves the receiver open with nobody waiting, what is queued is taken out and a direct announcement of a fresh CID must go through (Direct returns, Next delivers it); (S) every set of 2 threads x 1-2 operations and 3 threads x 1 operation containing at least one Close (3 threads x <=2 operations in the thorough tier), all interleavings at the scheduling points of the instrumented announce package up to the preemption bound. states = distinct decision states / sequences; transitions = scheduling steps / operations; traces = executions of the real receiver.",
 		"(H) and (S): receiver without pubsub (nil host); (P): the receiver with a gossipsub topic on one transport-less libp2p host, a thread publishing one announcement, so that the watcher goroutine takes part: publish || Close, optionally || UncacheCid / Next / a second Close / Direct, the Direct variants also with WithResend(true) (direct announcements republished on a topic that has no other subscriber); every call returns and no receiver goroutine is left. Sequences in which Go itself may legally choose between two answers (Next after Close with a queued announcement, two Direct calls blocked at once) are skipped in (H) and accepted either way in (S)",
 		"instrumented select statements try their cases in source order (a legal restriction of Go's choice)",
 	)
